@@ -6,9 +6,11 @@ WT=/tmp/wt/$P; SRC=/tmp/wt_out/$P/$M
 BASE_FAIL="tests/test_config.py::TestDefaultCodeFilter::test_excludes_site_packages tests/test_tracing.py::TestTraceCalls::test_access_property tests/test_tracing.py::TestTraceCalls::test_callee_throws_recovers tests/test_tracing.py::TestTraceCalls::test_caller_handles_callee_exception tests/test_tracing.py::TestTraceCalls::test_generator_trace tests/test_tracing.py::TestTraceCalls::test_nested_callee_throws_recovers tests/test_tracing.py::TestTraceCalls::test_return_none"
 [ -d "$WT" ] || git -C /repo worktree add --detach "$WT" "${BASE_REV:-HEAD}" -q
 cd "$WT" || exit 9
+git checkout -q --detach $(git -C /repo rev-parse HEAD) 2>/dev/null
+PATCH=$SRC/patch.diff; [ -f $SRC/patch_rebased.diff ] && PATCH=$SRC/patch_rebased.diff
 git checkout -q -- . ; [ -z "$(git status --porcelain)" ] || { echo "worktree dirty"; exit 9; }
 PYTHONPATH=$WT timeout 600 /venv/bin/python -W ignore $SRC/demo.py >/tmp/confirm_$P$M.clean 2>&1; c=$?
-git apply $SRC/patch.diff || { echo "patch does not apply"; exit 8; }
+git apply $PATCH || { echo "patch does not apply"; exit 8; }
 PYTHONPATH=$WT timeout 600 /venv/bin/python -W ignore $SRC/demo.py >/tmp/confirm_$P$M.mut 2>&1; m=$?
 PYTHONPATH=$WT /venv/bin/python -m pytest -q -p no:cacheprovider 2>&1 | tail -15 > /tmp/confirm_$P$M.tests
 fails=$(grep '^FAILED\|^ERROR' /tmp/confirm_$P$M.tests | sed 's/ - .*//; s/^FAILED //; s/^ERROR //' | sort | tr '\n' ' ')
@@ -18,7 +20,7 @@ git checkout -q -- .
 ok=1; [ "$c" = 0 ] || ok=0; [ "$m" = 1 ] || ok=0; [ "$fails" = "$want" ] || ok=0
 echo "$P $M demo_clean=$c demo_mut=$m tests_same=$([ "$fails" = "$want" ] && echo yes || echo NO) :: $summary"
 if [ $ok = 1 ]; then
-  D=/verif/seeded/$P-$M; mkdir -p $D; cp $SRC/patch.diff $SRC/demo.py $D/; cp $SRC/notes.md $D/notes.md
+  D=/verif/seeded/$P-$M; mkdir -p $D; cp $PATCH $D/patch.diff; cp $SRC/demo.py $D/; cp $SRC/notes.md $D/notes.md
   /venv/bin/python - "$P" "$M" "$summary" "$@" <<'PY'
 import json,sys
 P,M,summary,*caught=sys.argv[1:]
